@@ -11,6 +11,7 @@ Require Import Zrs.lib.RsPrelude Zrs.model.RingBuffer Zrs.model.BlockDec.
 Require Import Zrs.proofs.C04_Run Zrs.proofs.C06_Drain Zrs.proofs.C05_Block Zrs.proofs.C12_Fse Zrs.proofs.C14_Headers.
 Require Import Zrs.model.FseDec Zrs.gen.Generated Zrs.model.BitIO Zrs.model.BitRev64 Zrs.proofs.C03_BitRev64.
 Require Import Zrs.model.FseDec Zrs.model.HufDec Zrs.proofs.C03_Desc Zrs.proofs.C03_HufTable.
+Require Import Zrs.model.FseEnc Zrs.proofs.C03_HufComplete Zrs.proofs.C03_HufStream Zrs.proofs.C03_FseStates.
 Open Scope Z_scope.
 
 Theorem C03_window_never_faults : forall k ops, (1 <= k)%nat -> Forall op_contract ops -> forall s, Inv s ->
@@ -59,6 +60,34 @@ Theorem C03_huffman_table_construction_never_panics : forall ws, Forall (fun w =
   match build_table_from_weights ws with RPanic _ => False | _ => True end.
 Proof. exact build_table_from_weights_never_panics. Qed.
 
+(** every Huffman table the decoder builds is complete: 2^max_bits entries, each with a code length in 1..max_bits *)
+Theorem C03_huffman_table_is_complete : forall ws dec M bits ranks idxs, Forall (fun w => 0 <= w) ws ->
+  build_table_from_weights ws = ROk (dec, M, bits, ranks, idxs) ->
+  Z.of_nat (length dec) = 2 ^ M /\ 1 <= M <= MAX_MAX_NUM_BITS /\ forall i, 0 <= i < 2 ^ M -> 1 <= h_bits (nth_h dec i) <= M.
+Proof. exact built_huffman_table_complete. Qed.
+
+(** ... hence decoding a Huffman-coded stream with it never indexes out of the table and never stands still: for every
+    byte string the stream decoder returns a result or an error within its fuel (which bounds the real loop) *)
+Theorem C03_huffman_stream_decoding_never_panics : forall ht src t used stream out check,
+  huf_build_decoder ht src = ROk (t, used) -> Forall (fun w => 0 <= w) (ht_weights t) ->
+  match huf_decode_stream t stream out check with RPanic _ => False | _ => True end.
+Proof. exact built_table_stream_no_panic. Qed.
+
+(** FSE states never leave the table: for every table built from a normalised distribution (accuracy log 5..9, "less
+    than one" probabilities included) initialising a state and every transition stay inside the table whatever the
+    bit stream holds *)
+Theorem C03_fse_states_never_leave_the_table : forall al probs ms,
+  5 <= al <= 9 -> Forall (fun p => -1 <= p) probs -> weight probs = 2 ^ al ->
+  (length probs <= 256)%nat -> Z.of_nat (length probs) <= ms + 1 ->
+  exists D, fse_build_from_probabilities (fse_new ms) al probs = ROk D /\
+    (forall br, rwf br -> exists st br', fse_init_state D br = ROk (st, br') /\ In st (t_decode D) /\ rwf br') /\
+    (forall st br, In st (t_decode D) -> rwf br ->
+       exists st' br', fse_update_state D st br = ROk (st', br') /\ In st' (t_decode D) /\ rwf br').
+Proof. exact built_table_states_stay_inside. Qed.
+
+Print Assumptions C03_huffman_table_is_complete.
+Print Assumptions C03_huffman_stream_decoding_never_panics.
+Print Assumptions C03_fse_states_never_leave_the_table.
 Print Assumptions C03_table_description_reader_never_panics.
 Print Assumptions C03_huffman_table_construction_never_panics.
 Print Assumptions C03_bit_reader_never_panics.
